@@ -201,6 +201,21 @@ FAMILIES["liferace"] = {
     "assumptions": ["data races are observed with the Go race detector on randomly interleaved public calls from six goroutines against the background activity (60 s), not proved"],
 }
 
+FAMILIES["heal"] = {
+    "name": "heal", "props": ["C05"], "models": "Exchange.v (merge_all / pushpull over Core.step)",
+    "harness": COMMON + ["zz_vf_heal_test.go"], "test": "TestVfHeal",
+    "n": {"quick": 400, "thorough": 20000}, "no_shrink": False,
+    "codes": [(560, 569, ["C05"])],
+    "code_names": {1: "undecodable case", 58: "a push/pull between two running nodes returned an error",
+                   59: "records before the exchanges differ from the model (Core.run of the driving calls)",
+                   60: "records after the first push/pull differ from the Exchange model",
+                   61: "records after the second push/pull differ from the Exchange model",
+                   560: "C05: after two complete push/pull exchanges a running node is not listed alive with its current address and metadata by its peer (C05_two_exchanges_heal on the implementation's records)",
+                   561: "C05: a running node does not list itself alive with its own address and metadata after merging a peer's state"},
+    "assumptions": ["the two exchanges run back to back with nothing else happening (no timer fires, no probe): the theorem is about the exchange itself",
+                    "snapshot entries are merged in the sender's list order in the model and in the order of the sender's node list in the code; the compared records do not depend on it"],
+}
+
 # a property may be served by several families (run in order); the first is its primary one
 PROPS = {}
 for f, d in sorted(FAMILIES.items(), key=lambda kv: 0 if kv[0] in ("susp", "queue", "wire", "stream") else 1):
